@@ -1356,6 +1356,32 @@ func (r *c04Runner) opUnion() {
 	if rows, ok := r.query("UNION ALL", "SELECT "+k+" FROM t WHERE b0 = 0 UNION ALL SELECT "+k+" FROM t WHERE b0 = 1"); ok {
 		r.checkReps("UNION ALL", "union", true, rows, l, rr)
 	}
+	// an operand without rows: the rows of the other one still have to be bucketed
+	all, none := "SELECT "+k+" FROM t", "SELECT "+k+" FROM t WHERE id < 0"
+	for _, e := range []struct {
+		op, kind string
+		all      bool
+		lq, rq   string
+		l, rr    []int
+	}{
+		{"UNION", "union", false, all, none, r.allRows(), nil},
+		{"UNION", "union", false, none, all, nil, r.allRows()},
+		{"UNION ALL", "union", true, all, none, r.allRows(), nil},
+		{"EXCEPT", "except", false, all, none, r.allRows(), nil},
+		{"EXCEPT ALL", "except", true, all, none, r.allRows(), nil},
+		{"EXCEPT", "except", false, none, all, nil, r.allRows()},
+		{"INTERSECT", "intersect", false, all, none, r.allRows(), nil},
+		{"INTERSECT", "intersect", false, none, all, nil, r.allRows()},
+	} {
+		if rows, ok := r.query(e.op, e.lq+" "+e.op+" "+e.rq); ok {
+			r.checkReps(e.op, e.kind, e.all, rows, e.l, e.rr)
+		}
+	}
+	if rows, ok := r.query("UNION", "SELECT COUNT(*) FROM ("+all+" UNION "+none+") s"); ok && len(rows) == 1 {
+		if rows2, ok2 := r.query("DISTINCT", "SELECT COUNT(*) FROM (SELECT DISTINCT "+k+" FROM t) s"); ok2 && len(rows2) == 1 && fmt.Sprint(rows[0]) != fmt.Sprint(rows2[0]) {
+			r.violate("union:empty-operand:count-differs-from-distinct", fmt.Sprintf("COUNT(*) over t UNION (no rows) = %v, over SELECT DISTINCT = %v", rows[0], rows2[0]))
+		}
+	}
 }
 
 func (r *c04Runner) opSet(bit int) {
